@@ -110,9 +110,32 @@ def rule_bind(ctx: Ctx) -> List[Ob]:
                                         isinstance(g0.func, ast.Attribute) and g0.func.attr == "grad" and src(g0.func.value) == "sf"
                 obs.append(ob("BIND", f"DCSRCH({p}=) receives {w}", ls, v or c, ok, f"{p} <- {short(v)} (SciPy signature {sig})",
                               construct=f"DCSRCH({p}={short(v, 30)})"))
+        if isinstance(c, ast.Call) and (dotted(c.func) or "").split(".")[-1] == "max_allowed_steplength":
+            # the user's cap and the iteration number reach the cap computation in their own slots
+            g_ = ctx.repo.func("linesearch.max_allowed_steplength")
+            b = bind_args(c, g_.node)
+            want_ = dict(zip(g_.params, ["x0", "d", "lb", "ub", "max_steplength_user", "above_iter"]))
+            for p_, w_ in want_.items():
+                v = b.get(p_)
+                ok = v is not None and src(v) == w_
+                obs.append(ob("BIND", f"max_allowed_steplength({p_}=) receives {w_}", ls, v or c, ok, f"{p_} <- {short(v)}",
+                              construct=f"max_allowed_steplength({p_}={short(v, 30)})"))
         if isinstance(c, ast.Call) and (dotted(c.func) or "").endswith("minpack2.dcsrch"):
             slots = ["stp", "f", "g", "ftol", "gtol", "xtol", "task", "stpmin", "stpmax", "isave", "dsave"]
             got = {s: a for s, a in zip(slots, c.args)}
+            # the legacy routine is driven like the new one: same step, value, slope and task variables as DCSRCH._iterate
+            its_ = [x for x in walk_no_nested(ls.node) if isinstance(x, ast.Call) and isinstance(x.func, ast.Attribute) and x.func.attr == "_iterate"]
+            if len(its_) == 1 and len(its_[0].args) == 4:
+                for p_, a_ in zip(("stp", "f", "g", "task"), its_[0].args):
+                    v = got.get(p_)
+                    ok = v is not None and src(v) == src(a_)
+                    obs.append(ob("BIND", f"legacy dcsrch slot {p_} receives what DCSRCH._iterate receives", ls, v or c, ok,
+                                  f"{p_} <- {short(v)} (_iterate: {short(a_)})", construct=f"dcsrch({p_}={short(v, 30)})"))
+                for p_ in ("isave", "dsave"):
+                    v = got.get(p_)
+                    ok = v is not None and src(v) == p_
+                    obs.append(ob("BIND", f"legacy dcsrch slot {p_} receives the work array {p_}", ls, v or c, ok, f"{p_} <- {short(v)}",
+                                  construct=f"dcsrch({p_}={short(v, 30)})"))
             for p, w in (("ftol", "ftol"), ("gtol", "gtol"), ("xtol", "xtol"), ("stpmax", "max_steplength")):
                 v = got.get(p)
                 ok = v is not None and src(v) == w
